@@ -84,7 +84,8 @@ def render_entry(e, sp=0):
     n = 3
     for j, (f, v) in enumerate(e['exprs']):
         if out:
-            out += gap(n) + ('AND' if sp % 11 == 3 else 'and') + gap(n + 1)
+            # (cssutils reads "and(" as the keyword followed by an expression, in any letter case: pinned for lower case by the suite)
+            out += gap(n) + ('AND' if sp % 11 == 3 else 'And' if sp % 11 == 7 else 'and') + ('' if sp % 5 == 2 else gap(n + 1))
         elif j:
             pass
         ex = '(' + opt(n) + f + opt(n + 1)
